@@ -196,7 +196,9 @@ claim('C18', 'DESIGN.md 13.6',
       'TLA+ spec Debyer.tla: the chunk table (_chunk) and the OpenMP schedule of one frame (static schedule, private accumulation rows, '
       'load/store grain, barrier, sequential reduction; every pair carries a distinct integer weight) - TLC explores every interleaving '
       'for small instances and checks ResultIsDebyeSum, RowsArePrivate, ReduceAfterBarrier, Terminates (weak fairness), ChunkPartition '
-      '(n <= 12, chunks <= 14), OrderIndependent; a shared-row deviation must violate them.  The extension is rebuilt from /repo '
+      '(n <= 12, chunks <= 14), OrderIndependent; a shared-row deviation must violate them.  ChunkInd.tla (same definitions through '
+      'Chunk.tla) states the chunk partition for EVERY number of sites and chunks and is discharged symbolically by Apalache (one SMT '
+      'query over unbounded integers; a wrong chunking must be refuted in the same run).  The extension is rebuilt from /repo '
       '(cython + gcc -fopenmp, scratch directory); the real _chunk is compared with the specification chunk table, and omega of seeded '
       'trajectories with the direct float64 Debye sum for every chunk count x OMP_NUM_THREADS and for permuted site orders',
       'A schedule property: exhaustive over interleavings at the specification level for small instances; the binding compares the real '
